@@ -1033,7 +1033,7 @@ def _sym_rvalue_env(fn, rv, env):
     return fn.sym_rvalue(rv)
 
 
-def decision_rows(fn, start=0, stop_blocks=None, cap=6000, with_exit=False):
+def decision_rows(fn, start=0, stop_blocks=None, cap=6000, with_exit=False, extra_block_events=None):
     """Path-sensitive decision table: rows (conds, ret_sym) where conds = tuple of (cond_sym, outcome);
     outcome is True/False for bool switches and ('is', variant) / ('not', (variants...)) for discriminant switches.
     Values of multiply-defined locals (materialised booleans, the return place) are resolved along each path."""
@@ -1049,6 +1049,8 @@ def decision_rows(fn, start=0, stop_blocks=None, cap=6000, with_exit=False):
         t = fn.term(b)
         if t[2] == "call" and not t[5][1] and t[5][0] in tracked:
             evs.append(("SC", b))
+        for x in (extra_block_events or {}).get(b, []):
+            evs.append(("X", x))
         if evs:
             block_ev[b] = evs
         if t[2] == "switch":
@@ -1060,8 +1062,12 @@ def decision_rows(fn, start=0, stop_blocks=None, cap=6000, with_exit=False):
         for seq in ss:
             env = {}
             conds = []
+            extras = []
             # events are in path order, but block events of a block precede its out-edge event: replay in order
             for e in seq:
+                if e[0] == "X":
+                    extras.append(e[1])
+                    continue
                 if e[0] == "S":
                     s = fn.stmts(e[1])[e[2]]
                     env[s[3][0]] = _sym_rvalue_env(fn, s[4], env)
@@ -1084,8 +1090,11 @@ def decision_rows(fn, start=0, stop_blocks=None, cap=6000, with_exit=False):
                         else:
                             conds.append((c, ("is", _variant_name(fn, e[1], e[2]))))
             ret = env.get(0)
-            key = (tuple((fmt_sym(c, maxdepth=14), str(o)) for c, o in conds), fmt_sym(ret, maxdepth=14) if ret else None) + ((ex,) if with_exit else ())
-            rows[key] = (tuple(conds), ret, ex) if with_exit else (tuple(conds), ret)
+            key = (tuple((fmt_sym(c, maxdepth=14), str(o)) for c, o in conds), fmt_sym(ret, maxdepth=14) if ret else None) + ((ex,) if with_exit else ()) + (tuple(extras) if extra_block_events is not None else ())
+            if extra_block_events is not None:
+                rows[key] = (tuple(conds), ret, ex, tuple(extras))
+            else:
+                rows[key] = (tuple(conds), ret, ex) if with_exit else (tuple(conds), ret)
     return list(rows.values()), capped
 
 
